@@ -1908,6 +1908,8 @@ class Interp:
         try:
             self.run_block(f.node.body, frame)
         except _Return as r:
+            if f.cached and getattr(self, 'cached_returns', None) is not None:
+                self.cached_returns.append((f.qualname, r.v))      # a value that functools.lru_cache will hand out again
             return r.v
         finally:
             self.call_depth -= 1
